@@ -89,6 +89,22 @@ func GenDuelProbe(seed int64, idx int, tier string) *Plan {
 		late := p.Barrier[rng.Intn(2)]
 		p.BarrierStaggerNs = map[string]int{late: 500 + rng.Intn(30000)}
 	}
+	if idx%2 == 1 {
+		// "slow reader": t2's loop has applied its change and rebuilds the rotation - it reads t1's state, and is then held
+		// for a little real time before it reads t2's (hook state_read); t1's loop applies t1's change and rebuilds the
+		// rotation meanwhile. Whatever the first loop installs afterwards must not carry t1's old state. (With the rebuild
+		// under lb.lock, as in the code, the second loop simply waits for the lock.)
+		if rng.Intn(2) == 0 {
+			// t2 recovers while t1 starts failing for good: a stale rotation keeps sending to t1
+			f1 := bad()
+			p.Targets["t1"] = TargetScript{Probes: []ProbeOutcome{ok, ok, f1}, Then: f1}
+			p.Targets["t2"] = TargetScript{Probes: []ProbeOutcome{ok, bad(), ok}, Then: ok}
+		}
+		// (else, as above: t2 starts failing while t1 recovers: a stale rotation is empty although t1 is healthy)
+		p.Barrier = []string{"hc_applied@hc:t2#1", "hc_result@hc:t1#1"}
+		p.BarrierStaggerNs = nil
+		p.ReadSpin = map[string]int{"t2": 50 + rng.Intn(400)}
+	}
 	p.ParkPoints = []string{"hc_applied", "hc_result"}
 	p.BarrierN = 2
 	p.BarrierAfterMs = 1900
